@@ -310,6 +310,8 @@ def u_sz():
     u.add(B, 1, 60, [], clen=4096 - 152)                                    # 23 exactly two chunks long
     u.add(B, 1, 61, [], clen=5000)                                          # 24 multi-chunk
     u.add(A, 1, 62, [], clen=0)                                             # 25 minimal
+    u.add(A, 1, 63, [["t", "x"]], clen=65535)                               # 26 content length just below 2^16
+    u.add(B, 1, 64, [], clen=65536 + 40)                                    # 27 content longer than 2^16 bytes
     return u.finish()
 
 
@@ -369,6 +371,20 @@ def u_c09c():
     return u.finish()
 
 
+def u_c09d():
+    """Index-key shapes around displacement: a longer single-letter tag value before a short d value in one event (keys are
+    built per tag in a fixed-width field), and an address that already carries a deletion marker OLDER than its holders."""
+    u = Universe("c09d", nauthors=1, nabsent=1)
+    A = 1
+    u.add(A, 30003, 10, [["t", "nostrdev"], ["d", "a"]], clen=18)      # 1 a longer single-letter value BEFORE a short d value
+    u.add(A, 30003, 20, [["d", "a"]], clen=19)                         # 2 displaces 1
+    u.add(A, 5, 3, [["a", ("addr", 30003, A, "a")]], clen=0)           # 3 a deletion of that address OLDER than both versions
+    u.add(A, 30003, 15, [["e", "abcdefgh"], ["t", "xy"], ["d", "a"], ["p", "q"]], clen=20)   # 4 between them in time, descending value lengths
+    u.add(A, 10003, 10, [["e", "longervalue"], ["t", "s"]], clen=21)   # 5 replaceable with the same shape
+    u.add(A, 10003, 20, [["t", "s"]], clen=22)                         # 6 displaces 5
+    return u.finish()
+
+
 def u_c10c():
     """Deletion requests whose a tags name kinds that have no addresses (regular, just above the parameterized range):
     the marker is recorded, no event is covered."""
@@ -421,6 +437,8 @@ def u_c10d():
     u.add(A, 1, 9, [], clen=7)                                               # 6 A's own note
     u.add(A, 5, 23, [["e", ("ev", 6)], ["k", "1"]], clen=0)                  # 7 own target with its k tag (effective)
     u.add(A, 5, 24, [["k", "1"], ["e", ("ev", 1)]], clen=0)                  # 8 k tag first, then B's note
+    # a NIP-26 delegation tag naming B as the delegator (the store cannot check the token): A's request stays A's request
+    u.add(A, 5, 25, [["delegation", ("pk", B), "kind=5", "00" * 64], ["e", ("ev", 1)]], clen=0)   # 9
     return u.finish()
 
 
@@ -608,7 +626,7 @@ def u_exp(now):
     return u.finish()
 
 
-CURATED = dict(many=u_many, c09t=u_c09t, c10e=u_c10e, c12y=u_c12y, c14b=u_c14b, c10d=u_c10d, qv=u_qv, c09c=u_c09c, c10c=u_c10c, c16=u_c16, c11b=u_c11b, c12x=u_c12x, c09b=u_c09b, c10b=u_c10b, sz=u_sz, core=u_core, c09=u_c09, c10=u_c10, c11=u_c11, c18=u_c18, q=u_q)
+CURATED = dict(c09d=u_c09d, many=u_many, c09t=u_c09t, c10e=u_c10e, c12y=u_c12y, c14b=u_c14b, c10d=u_c10d, qv=u_qv, c09c=u_c09c, c10c=u_c10c, c16=u_c16, c11b=u_c11b, c12x=u_c12x, c09b=u_c09b, c10b=u_c10b, sz=u_sz, core=u_core, c09=u_c09, c10=u_c10, c11=u_c11, c18=u_c18, q=u_q)
 
 
 # ------------------------------------------------------------------------------------------------
